@@ -104,6 +104,10 @@ CHECKS = {
          "For each schema: the fault-free adapter must pass; a non-null property / a neighbour / a true coercion for a context without an active vertex, and swapped (thorough: reversed, dropped, duplicated) contexts, injected at every property "
          "(incl. __typename), edge and interface->implementer coercion site must be caught exactly when the site is in the documented probe set (edges with a required parameter without default are documented as unchecked).",
          "Single faults only; the fault-free adapter is schema-generic (it returns null / nothing / false for the vertex-less contexts the checker sends)."),
+ "C26": (EX, "6/C26", "Stubgen.tla (the generator's and the derive macro's snake-case functions, escaping, identifier namespaces) predicts refusal / compilation per naming case; the real generator is run and every generated stub is compiled offline with cargo test --no-run",
+         "Naming-focused valid schemas (consecutive capitals, digits, underscores, case-only and underscore-only differences, Rust keywords and reserved words as type / field / edge / entrypoint names, Type vs Type_, std-like names): "
+         "a refusal for a predicted identifier collision is accepted, any other generator failure or a stub that rustc rejects is a violation. Quick 7 schemas, thorough 19.",
+         "'Is valid Rust' is decided by rustc, not by the model; properties use built-in scalars only."),
 }
 NOT_YET ="check not built yet at this commit (see DESIGN.md section 6 for the planned decision procedure)"
 
